@@ -54,6 +54,21 @@ fn main() {
                 }
             }
         }
+        "digest" => {
+            // hcsim digest <Cxx> <n>: per-run digests for the determinism self-test
+            if args.len() < 4 {
+                usage();
+            }
+            let n: u64 = args[3].parse().unwrap_or(100);
+            match args[2].as_str() {
+                "C07" => props::c07::digest(n),
+                "C06" => props::c06::digest(n),
+                "C08" => props::c08::digest(n),
+                "C01" | "C02" | "C03" | "C04" | "C05" | "C18" | "C13" | "C14" | "C15" => props::hprops::digest(&args[2], n),
+                _ => usage(),
+            }
+            0
+        }
         "replay" => {
             if args.len() < 3 {
                 usage();
